@@ -188,7 +188,16 @@ func emit(w *bufio.Writer, r sim.Record) {
 	w.Flush()
 }
 
+// stdout is the worker's own output channel (records, replay reports). The
+// process-wide os.Stdout is pointed at the null device in Main: library code
+// under test may print (the edit server's handlers print the stack of a
+// recovered panic), which must not end up between the records.
+var stdout = os.Stdout
+
 func Main() {
+	if null, err := os.OpenFile(os.DevNull, os.O_WRONLY, 0); err == nil {
+		os.Stdout = null
+	}
 	if len(os.Args) < 2 {
 		fmt.Fprintln(os.Stderr, "usage: simrun run|replay|shrink|list ...")
 		os.Exit(ExitTrouble)
@@ -196,7 +205,7 @@ func Main() {
 	switch os.Args[1] {
 	case "list":
 		for _, s := range registry {
-			fmt.Printf("%s %s isolated=%v race=%v\n", s.Prop(), s.Name(), s.Isolated(), s.NeedsRace())
+			fmt.Fprintf(stdout, "%s %s isolated=%v race=%v\n", s.Prop(), s.Name(), s.Isolated(), s.NeedsRace())
 		}
 	case "run":
 		cmdRun(os.Args[2:])
@@ -232,7 +241,7 @@ func cmdRun(args []string) {
 		fmt.Fprintf(os.Stderr, "scenario %s/%s needs a -race build\n", *prop, *scen)
 		os.Exit(ExitTrouble)
 	}
-	out := bufio.NewWriter(os.Stdout)
+	out := bufio.NewWriter(stdout)
 	for run := *from; run < *to; run++ {
 		if *deadline > 0 && time.Now().Unix() >= *deadline {
 			break
@@ -331,20 +340,20 @@ func cmdReplay(args []string) {
 	res, trace, _ := replayOnce(s, choice.Values(rec.Trace), t)
 	out := sim.Record{Prop: rec.Prop, Scenario: rec.Scenario, Seed: rec.Seed, Run: rec.Run, Tier: t, Result: res, Trace: trace, Race: RaceEnabled}
 	if *valsOnly {
-		w := bufio.NewWriter(os.Stdout)
+		w := bufio.NewWriter(stdout)
 		emit(w, out)
 	} else if !*quiet {
 		if res.Violation != nil {
-			fmt.Printf("replay: violation class=%s\n  %s\n", res.Violation.Class, res.Violation.Msg)
+			fmt.Fprintf(stdout, "replay: violation class=%s\n  %s\n", res.Violation.Class, res.Violation.Msg)
 			if db, err := json.MarshalIndent(res.Violation.Detail, "  ", " "); err == nil && res.Violation.Detail != nil {
 				d := string(db)
 				if len(d) > 6000 {
 					d = d[:6000] + "\n  ... (see the replay file)"
 				}
-				fmt.Printf("  %s\n", d)
+				fmt.Fprintf(stdout, "  %s\n", d)
 			}
 		} else {
-			fmt.Println("replay: no violation")
+			fmt.Fprintln(stdout, "replay: no violation")
 		}
 	}
 	want := classOf(rec.Result)
